@@ -1,6 +1,13 @@
+import Props.C19Gen
 import Props.C03
 open Model.C03
 #print axioms values_complete
 #print axioms values_causal
 #print axioms values_sorted
 #print axioms values_depend_on_set_only
+open Model.C19Gen in
+#print axioms maxInt_eq
+open Model.C19Gen in
+#print axioms minInt_eq
+open Model.C19Gen in
+#print axioms sort_less_eq
